@@ -373,7 +373,7 @@ func docSize(r *rng.R) int {
 	case 3:
 		return r.Range(15, 19) // around insane-json's default map threshold (16)
 	case 4:
-		return r.Range(20, 30)
+		return r.Range(20, 45) // above 32: insane-json's map path if the threshold were in force
 	}
 	return r.Range(2, 9)
 }
@@ -585,7 +585,7 @@ func unionKeys(docs [][]byte) []string {
 }
 
 func keyPool(r *rng.R) []string {
-	n := r.Range(4, 34)
+	n := r.Range(4, 60)
 	seen := map[string]bool{}
 	var out []string
 	for len(out) < n {
@@ -625,8 +625,10 @@ func streamDup(w *casefile.Writer, r *rng.R, n int) {
 		var dupKeys []string
 		for i := range docs {
 			size := r.Range(1, 8)
-			if r.Chance(1, 8) {
+			if r.Chance(1, 6) {
 				size = r.Range(14, 20)
+			} else if r.Chance(1, 6) {
+				size = r.Range(33, 45) // > 32 fields
 			}
 			if size > len(pool) {
 				size = len(pool)
